@@ -55,6 +55,9 @@ CHECKS = {
     "C10": dict(ready=True, category="exploration", technique="runtime monitoring: reference-model monitor - an oracle re-implementing the documented validation rules three-valued (violated / satisfied / unspecified) from the documentation text, compared with the real reader on valid documents + one recorded mutation each, under a panic monitor",
         text="Valid generated documents (G1 + enrichments: every job kind, relations, timestamped / profile-less matrices, coordinates) must be accepted; then one mutation out of 549 classes over 72 field classes is applied (per rule breakers and near-misses, per field a hostile value of the right JSON type) and the outcome is judged: panic, accepted although a documented rule is clearly broken, rejected with a code whose rule is satisfied or with an undocumented code although no rule is broken. Evidence lists per rule violating/satisfying documents and per field class the outcomes.",
         note="Only read_pragmatic is observed; boundaries the documentation leaves open are unspecified and never decide; completeness of the reported code list is tabulated, not judged.", design_ref="DESIGN.md §3 C10"),
+    "C11": dict(ready=True, category="exploration", technique="runtime monitoring: round-trip identity monitor on documents (own JSON reader, numbers compared from their literals within 2 ulp) and differential monitor of read_init_solution against the solution JSON; CSV import compared field by field with the generated tables",
+        text="(1) ser(parse(ser(d))) == ser(d) and d within ser(parse(d)) for problems (G1 + an extension pass adding every enum variant and optional field), matrices and solutions (solver output and synthetic ones with transit stops, commute, violations, metrics); floors require every enum variant and every optional field present and absent. (2) solver output read back by read_init_solution: per vehicle shift the same ordered (job, task, place index by tag, location, window in which service started) and the same unassigned set. (3) generated CSV tables -> import -> must validate and carry exactly the tables' data.",
+        note="Clause 1 is decided on the serde model; clause 2 uses tagged multi-jobs as the docs demand; times/breaks/reloads not compared; transit/commute solutions and required breaks inside point stops are declared unsupported by the reader (inconclusive).", design_ref="DESIGN.md §3 C11"),
     "C03": dict(ready=True, category="exploration", technique="runtime monitoring: replay oracle recomputing schedule/load/distance/statistics/cost from routing data and visiting order, compared with every reported number",
         text="O1 replays each tour of each recorded solution from (visiting order, first departure): stop arrival/departure within the one-unit output rounding, per-stop load and cumulative distance exactly, tour and overall statistics, cost = fixed + distance*cd + duration*ct, and that the reported place tag belongs to a place explaining the reported interval.",
         note="Integral matrices/durations; fractional profile scale widens the per-leg split tolerance; tours with transit stops/commute only per-stop consistency (not generated).", design_ref="DESIGN.md §3 C03"),
